@@ -413,6 +413,7 @@ func TruncFunc(spec1, spec2 Spec) func(string) string {
 		if nextSep == -1 {
 			return comp
 		}
-		return comp[:pos+nextSep]
+		// trailing empty fields are not stored in keys
+		return strings.TrimRight(comp[:pos+nextSep], "\x00")
 	}
 }
